@@ -8,6 +8,7 @@ package client
 // file-system call of either side, and a restart of both.
 
 import (
+	"errors"
 	"io"
 	"os"
 	"path/filepath"
@@ -56,6 +57,9 @@ type vWire struct {
 	// corruptNext: the bytes of the next transmitted part are damaged in transit
 	// (same length, other content)
 	corruptNext bool
+	// faults: requests that may still fail (before the receiver saw anything,
+	// or after it processed everything with the answer lost)
+	faults int
 }
 
 func (w *vWire) metas(p sts.Payload) []sts.Binned {
@@ -69,6 +73,15 @@ func (w *vWire) metas(p sts.Payload) []sts.Binned {
 }
 
 func (w *vWire) transmit(p sts.Payload) (int, error) {
+	fault := 0
+	if w.faults > 0 {
+		if fault = w.v.Choose("request-fails", 3); fault != 0 {
+			w.faults--
+		}
+	}
+	if fault == 1 {
+		return 0, errWire
+	}
 	ms := w.metas(p)
 	w.s.Prepare(ms)
 	for k, m := range ms {
@@ -85,8 +98,13 @@ func (w *vWire) transmit(p sts.Payload) (int, error) {
 		}
 		w.sent += e - b
 	}
+	if fault == 2 {
+		return 0, errWire // processed, but the answer never arrives
+	}
 	return len(ms), nil
 }
+
+var errWire = errors.New("connection reset")
 
 func (w *vWire) recoverTransmission(p sts.Payload) (int, error) { return w.s.Received(w.metas(p)), nil }
 
@@ -146,6 +164,8 @@ func H_E2E_PowerFailure(v *verifrt.T) {
 		wire.corruptNext = true
 		v.Reach("damaged-in-transit")
 	}
+	wire.faults = v.Param("FAULTS", 0)
+	continuous := v.Param("CONTINUOUS", 0) == 1
 	two := v.Param("FILES", 1) == 2
 	if two {
 		// a second, newer file of the same group: in-order delivery end to end
@@ -200,8 +220,24 @@ func H_E2E_PowerFailure(v *verifrt.T) {
 			Tags: []*FileTag{{Name: "", InOrder: true, Delete: del}}, ErrorBackoff: 1,
 		}}
 		stop, done := make(chan bool, 1), make(chan bool, 1)
-		stop <- true // one-shot
-		go broker.Start(stop, done)
+		if continuous {
+			// a continuous sender (scans every 30 s): it is asked to stop,
+			// gracefully, once the receiver has delivered what there is — or
+			// after 300 timer firings at the latest
+			broker.Conf.ScanDelay = 30 * time.Second
+			go broker.Start(stop, done)
+			for r := 0; r < 300; r++ {
+				v.QuiesceTimers(1)
+				if v.Exists(filepath.Join(finalDir, "g/a")) && (!two || v.Exists(filepath.Join(finalDir, "g/b"))) {
+					break
+				}
+			}
+			v.QuiesceTimers(3) // let the confirmation arrive
+			stop <- true
+		} else {
+			stop <- true // one-shot
+			go broker.Start(stop, done)
+		}
 		// bounded liveness: the one-shot run ends before 200 timers have fired
 		for r := 0; r < 200 && len(done) == 0; r++ {
 			v.QuiesceTimers(1)
@@ -224,7 +260,7 @@ func H_E2E_PowerFailure(v *verifrt.T) {
 	} else {
 		v.Reach("no-failure")
 		// unwinding check: every file-system call of a complete run was a crash point
-		v.Assert(k > 0 || !v.Symbolic() || v.FSMutations()-m0 <= v.Param("MAXK", 40), "bound: MAXK covers every file-system call of a complete run")
+		v.Assert(k > 0 || !v.Symbolic() || v.Param("MAXK", 40) == 0 || v.FSMutations()-m0 <= v.Param("MAXK", 40), "bound: MAXK covers every file-system call of a complete run")
 		v.KillProcess()
 	}
 	consume()
